@@ -25,7 +25,7 @@ CHECKS.update({
          "§5 C02"),
  "C17": ("model_checking",
          "TLA+ transcription of MergeFromWithOptions model-checked over all reachable view triples (TLC); monitor CVMon (TLC) evaluates the merge laws on result tables produced by the real ClusterView for every ordered pair of a TLC-generated well-formed view domain",
-         "TLC checks union/newest/no-regress/monotone/changed and commutativity/associativity/idempotence of membership on every reachable triple of views of the model (joins, restarts, fresh re-joins, status changes, increments, merges, all strategies and skew settings). The real merge is then run on every ordered pair of 250-700 well-formed views per option set (quick: ~1.1M merges) and TLC judges the laws on the implementation's own results, associativity on pairs x sampled third operands.",
+         "TLC checks union/newest/no-regress/monotone/changed and commutativity/associativity/idempotence of membership on every reachable triple of views of the model (joins, restarts, fresh re-joins, status changes, increments, merges, all strategies and skew settings; one domain has members in the statuses up, suspect, leaving, removed). The real merge is then run on every ordered pair of 250-700 well-formed views per option set (quick: ~1.1M merges) and TLC judges the laws on the implementation's own results, associativity on pairs x sampled third operands.",
          "Well-formed views are a superset of reachable ones; timestamps are ranks; 2-3 member ids.",
          "§5 C17"),
  "C07": ("model_checking",
@@ -40,27 +40,27 @@ CHECKS.update({
          "§5 ActorSys / C03"),
  "C05": ("model_checking",
          "TLA+ spec ActorSys (actor tree at turn granularity: spawn, tell, kill, failure, supervision, restart, zombie, stash, watch, event stream) model-checked by TLC; TLC-simulated behaviours replayed turn by turn on a real actor.System through a gate in the mailbox consumer with the context projection compared after every step; recorded traces validated by TLC against the LifecycleMon monitor",
-         "Same model and binding; LifecycleMon checks per actor and incarnation: OnLaunch first, nothing after the own OnKilled, OnLaunch only to the starting actor, restart = new incarnation with its own OnLaunch and (provider) a fresh instance, no restarted actor left without launch.",
+         "Same model and binding; LifecycleMon checks per actor and incarnation: OnLaunch first, nothing after the own OnKilled, OnLaunch only to the starting actor, restart = new incarnation with its own OnLaunch and (provider) a fresh instance, no restarted actor left without launch, a failed pre-launch receives nothing even if it is sent a kill during the pre-launch, a dead watcher hears nothing of its target.",
          "One turn (HandleEnvelop) is atomic w.r.t. other actors (C01); root and observer ungated; scripted behaviours/decision makers are the only user code; name re-use is outside the TLC model; exhaustiveness holds for the model, the code is bound by the replayed and sampled schedules.",
          "§5 ActorSys / C05"),
  "C06": ("model_checking",
          "TLA+ spec ActorSys (actor tree at turn granularity: spawn, tell, kill, failure, supervision, restart, zombie, stash, watch, event stream) model-checked by TLC; TLC-simulated behaviours replayed turn by turn on a real actor.System through a gate in the mailbox consumer with the context projection compared after every step; recorded traces validated by TLC against the KillMon monitor",
-         "Same model (invariants ChildrenFirst, KilledOnce) and binding; KillMon checks on real traces: ActorKilledEvent once per actor and only after all descendants, exactly one OnKilled to the parent and to safely registered watchers, whole subtree gone after a kill aimed at any node (immediate or poison, repeated, racing failures and restarts), FindActor fails afterwards, no event-stream entry left.",
+         "Same model (invariants ChildrenFirst, KilledOnce) and binding; KillMon checks on real traces: ActorKilledEvent once per actor and only after all descendants, exactly one OnKilled to the parent and to safely registered watchers, whole subtree gone after a kill aimed at any node (immediate or poison, repeated, racing failures and restarts), FindActor fails afterwards, no event-stream entry left (also after subscribe/unsubscribe histories), a watcher or parent is told of a termination only after the actor has handled its own OnKilled and only if it really terminated (Watch arriving while the target is terminating or restarting).",
          "One turn (HandleEnvelop) is atomic w.r.t. other actors (C01); root and observer ungated; scripted behaviours/decision makers are the only user code; name re-use is outside the TLC model; exhaustiveness holds for the model, the code is bound by the replayed and sampled schedules.",
          "§5 ActorSys / C06"),
  "C08": ("model_checking",
          "TLA+ spec ActorSys (actor tree at turn granularity: spawn, tell, kill, failure, supervision, restart, zombie, stash, watch, event stream) model-checked by TLC; TLC-simulated behaviours replayed turn by turn on a real actor.System through a gate in the mailbox consumer with the context projection compared after every step; recorded traces validated by TLC against the SuperviseMon monitor",
-         "Same model and binding; SuperviseMon checks that the parent's decision maker is consulted at most once per failure (exactly once when the supervisor lives) and only by the parent, and - on single-failure traces - that restart/stop/resume hit exactly the one-for-one / one-for-all targets and nobody else, that Resume keeps instance and does not redeliver the failing message, that Escalate reaches the grandparent and ends in the default Stop at the top.",
+         "Same model and binding; SuperviseMon checks that the parent's decision maker is consulted at most once per failure (exactly once when the supervisor lives) and only by the parent, and - on single-failure traces - that restart/stop/resume hit exactly the one-for-one / one-for-all targets and nobody else, that Resume keeps instance and does not redeliver the failing message, that Escalate reaches the grandparent and ends in the default Stop at the top. StateMon adds: a resumed actor still owns its Loop job, and while only Restart/Resume were decided the only actors that terminate are kill targets with their subtrees and descendants of restarted actors (never a restart target, even when a Kill arrives during a one-for-all restart).",
          "One turn (HandleEnvelop) is atomic w.r.t. other actors (C01); root and observer ungated; scripted behaviours/decision makers are the only user code; name re-use is outside the TLC model; exhaustiveness holds for the model, the code is bound by the replayed and sampled schedules.",
          "§5 ActorSys / C08"),
  "C09": ("model_checking",
          "TLA+ spec ActorSys (actor tree at turn granularity: spawn, tell, kill, failure, supervision, restart, zombie, stash, watch, event stream) model-checked by TLC; TLC-simulated behaviours replayed turn by turn on a real actor.System through a gate in the mailbox consumer with the context projection compared after every step; recorded traces validated by TLC against the UnstuckMon monitor",
-         "Same model (invariants NobodyStuck, NoStrandedMail at rest) and binding; UnstuckMon checks at every quiescent point of the real system that no live actor is paused or half-stopped and no user mail is stranded, that every actor answers a probe (live: delivered, gone: dead letter), that queued mail keeps its order through restart/resume, that a zombie runs no user code, and that an actor is a zombie only after its own restart hook failed. Handlers fail through ctx.Failed and by panicking.",
+         "Same model (invariants NobodyStuck, NoStrandedMail at rest) and binding; UnstuckMon checks at every quiescent point of the real system that no live actor is paused or half-stopped and no user mail is stranded, that every actor answers a probe (live: delivered, gone: dead letter), that queued mail keeps its order through restart/resume, that a zombie runs no user code, and that an actor is a zombie only after its own restart hook failed. Handlers fail through ctx.Failed and by panicking; double faults (the launch after a restart fails); a failed actor handles nothing until a decision lets it continue. Mailbox level: supervision-shaped scenarios (a handler pauses its own mailbox, system messages that pause/resume it arrive from another goroutine) under fine-grained schedules, judged by MailboxMon.",
          "One turn (HandleEnvelop) is atomic w.r.t. other actors (C01); root and observer ungated; scripted behaviours/decision makers are the only user code; name re-use is outside the TLC model; exhaustiveness holds for the model, the code is bound by the replayed and sampled schedules.",
          "§5 ActorSys / C09"),
  "C19": ("model_checking",
          "TLA+ spec ActorSys (actor tree at turn granularity: spawn, tell, kill, failure, supervision, restart, zombie, stash, watch, event stream) model-checked by TLC; TLC-simulated behaviours replayed turn by turn on a real actor.System through a gate in the mailbox consumer with the context projection compared after every step; recorded traces validated by TLC against the StreamMon monitor",
-         "Same binding with subscribe / unsubscribe / unsubscribe-all / publish operations on two event types inside turns, subscribers failing, restarting and terminating in between; StreamMon checks delivery exactly once to exactly the subscribers at publication time, type isolation, publisher order, nothing to unsubscribed or terminated actors, and that the stream's forward and reverse tables equal the monitor's subscription set at every quiescent point (no entry after termination, restart keeps).",
+         "Same binding with subscribe / unsubscribe / unsubscribe-all / publish operations on two event types inside turns, subscribers failing, restarting and terminating in between; StreamMon checks delivery exactly once to exactly the subscribers at publication time, type isolation, publisher order, nothing to unsubscribed or terminated actors, and that the stream's forward and reverse tables equal the monitor's subscription set at every quiescent point (no entry after termination, restart keeps). Two of the four event types print the same type name. Ungated runs: publishers racing subscribe/unsubscribe, subscribers respawned under the same name, 40-257 subscribers receiving a burst from one publisher.",
          "One turn (HandleEnvelop) is atomic w.r.t. other actors (C01); root and observer ungated; scripted behaviours/decision makers are the only user code; name re-use is outside the TLC model; exhaustiveness holds for the model, the code is bound by the replayed and sampled schedules.",
          "§5 ActorSys / C19"),
  "C04": ("model_checking",
@@ -70,7 +70,7 @@ CHECKS.update({
          "§5 C04"),
  "C11": ("model_checking",
          "TLA+ spec of the receiving side's framing (byte stream in arbitrary segments -> one frame per turn through a buffered reader), TLC: all segmentations over chosen cut sets (safety + all delivered); TLC-simulated write/read behaviours replayed on the real connection actor over a scripted net.Conn; end-to-end loopback runs; traces validated by TLC against DeliveryMon",
-         "TLC explores every interleaving of sender writes and reads whose lengths come from a cut set covering 'inside the length prefix', 'inside the body', 'exactly at a boundary' and 'several frames at once', for frame families with real body lengths at the minimum and around the reader's 4096-byte buffer. Simulated behaviours are replayed byte-exactly on the real tcpConnectionActor (real decoder, real HandleRemotingEnvelop, real receiving actor). Two real systems over loopback TCP add concurrency, both directions, Ask/Reply and payloads up to 1 MiB (4 MiB thorough). DeliveryMon: exactly once, in order per sender/receiver pair, intact, replies reach the asker, everything delivered on a healthy link.",
+         "TLC explores every interleaving of sender writes and reads whose lengths come from a cut set covering 'inside the length prefix', 'inside the body', 'exactly at a boundary' and 'several frames at once', for frame families with real body lengths at the minimum and around the reader's 4096-byte buffer. Simulated behaviours are replayed byte-exactly on the real tcpConnectionActor (real decoder, real HandleRemotingEnvelop, real receiving actor). Two real systems over loopback TCP add concurrency, both directions, Ask/Reply the root context as a sender (Tell bursts with Asks in flight), and payloads up to frames 0/1/64 bytes below the 4 MiB limit (sizes computed from the real encoder). DeliveryMon: exactly once, in order per sender/receiver pair, intact, replies reach the asker, everything delivered on a healthy link.",
          "Each frame is written by one Write call; kernel TCP segmentation is represented at the Read boundary; loopback runs sample schedules (not exhaustive).",
          "§5 C11"),
  "C14": ("model_checking",
